@@ -1033,7 +1033,7 @@ func TestVerifC18(t *testing.T) {
 
 	// ---- random histories
 	rnd := vfNewRand(out.Seed).Fork(18)
-	n := out.Scale(130, 4000)
+	n := out.Scale(130, 1500)
 	for i := 0; i < n; i++ {
 		r := rnd.Fork(uint64(i))
 		in := c18hRandInit(r, pool)
